@@ -309,3 +309,114 @@ def update_tasks(case, rp):
     return dict(confirmed=False, detail='model did not reproduce; bounded '
                 'native search over %d (current, notified) pairs found no '
                 'failing input' % n)
+
+
+# ------------------------------------------------------------------------------
+# C13
+#
+class _P:
+    def __init__(self, uid, state): self.uid, self.state = uid, state
+
+
+def run_pilot_cb(rp, tasks, pilots, as_list=True):
+    tm = mk_tmgr(rp, tasks)
+    old = {u: (t.state, t.pilot) for u, t in tm._tasks.items()}
+    ps = [_P(p['_uid'], p['_state']) for p in pilots]
+    raised = None
+    try:
+        tm._pilot_state_cb(ps if as_list else ps[0])
+    except Exception as e:
+        raised = '%s: %s' % (type(e).__name__, e)
+    probs = []
+    if raised:
+        probs.append('raised %s' % raised)
+    dead = set(p.uid for p in ps if p.state in FINAL)
+    for u, t in tm._tasks.items():
+        ostate, opilot = old[u]
+        if opilot in dead and ostate not in FINAL:
+            if t.state != 'FAILED':
+                probs.append('%s bound to dead pilot %s is %s, not FAILED'
+                             % (u, opilot, t.state))
+            elif opilot not in str(getattr(t, '_exception_detail', '')):
+                probs.append('%s: explanation %r does not name pilot %s'
+                             % (u, getattr(t, '_exception_detail', None), opilot))
+        elif t.state != ostate:
+            probs.append('%s (pilot %s, was %s) changed to %s although pilot(s) '
+                         '%s ended' % (u, opilot, ostate, t.state, sorted(dead)))
+    return probs, old
+
+
+@builder('task_manager.py:TaskManager._pilot_state_cb')
+def pilot_state_cb(case, rp):
+    m = case.get('model') or {}
+    tasks = m.get('self._tasks') or {}
+    pilots = m.get('pilots')
+    if isinstance(pilots, dict): pilots = [pilots]
+    if tasks and pilots and all(isinstance(p, dict) for p in pilots):
+        for p in pilots:
+            p['_state'] = p['_state'] if p['_state'] in \
+                          rp.states._pilot_state_values else 'FAILED'
+        probs, old = run_pilot_cb(rp, tasks, pilots)
+        if probs:
+            return dict(confirmed=True, detail='; '.join(probs[:3]),
+                        input=dict(tasks=old, pilots=pilots))
+    n = 0
+    for pstate in FINAL + ['PMGR_ACTIVE']:
+        for s1 in ['NEW', 'AGENT_EXECUTING', 'DONE', 'CANCELED', 'FAILED']:
+            for s2 in ['TMGR_SCHEDULING', 'AGENT_EXECUTING', 'DONE', 'CANCELED']:
+                n += 1
+                tasks = {'t1': {'_state': s1, '_pilot': 'p1'},
+                         't2': {'_state': s2, '_pilot': 'p2'},
+                         't3': {'_state': s2, '_pilot': None},
+                         't4': {'_state': s1, '_pilot': 'p1'}}
+                pilots = [{'_uid': 'p1', '_state': pstate}]
+                probs, old = run_pilot_cb(rp, tasks, pilots, as_list=(n % 2 == 0))
+                if probs:
+                    return dict(confirmed=True, detail='; '.join(probs[:3]),
+                                input=dict(tasks=old, pilots=pilots),
+                                found_by='bounded native search (%d cases)' % n)
+    return dict(confirmed=False, detail='model did not reproduce; bounded native '
+                'search over %d cases found no failing input' % n)
+
+
+@builder('states.py:_task_state_progress')
+def task_state_progress(case, rp):
+    m = case.get('model') or {}
+    vals = rp.states._task_state_values
+    inv  = rp.states._task_state_inv
+
+    def one(cur, tgt):
+        probs = []
+        try:
+            new, passed = rp.states._task_state_progress('t', cur, tgt)
+        except Exception as e:
+            return ['raised %s: %s' % (type(e).__name__, e)]
+        if vals[new] < vals[cur]: probs.append('moved backward to %s' % new)
+        if new not in (cur, tgt): probs.append('new state %s is neither' % new)
+        if vals[tgt] > vals[cur]:
+            if new != tgt: probs.append('did not advance to %s' % tgt)
+            want = [inv[i] for i in range(vals[cur] + 1, vals[tgt])] + [tgt]
+            if list(passed) != want:
+                probs.append('passed %s, expected %s' % (passed, want))
+        elif passed:
+            probs.append('passed %s although nothing to advance' % passed)
+        elif cur != 'CANCELED' and new != cur:
+            probs.append('state changed %s -> %s' % (cur, new))
+        return probs
+    cur, tgt = m.get('current'), m.get('target')
+    if cur in vals and tgt in vals:
+        probs = one(cur, tgt)
+        if probs:
+            return dict(confirmed=True, detail='; '.join(probs),
+                        input=dict(current=cur, target=tgt))
+    n = 0
+    for cur in vals:
+        for tgt in vals:
+            n += 1
+            probs = one(cur, tgt)
+            if probs:
+                return dict(confirmed=True, detail='; '.join(probs),
+                            input=dict(current=cur, target=tgt),
+                            found_by='exhaustive native enumeration (%d pairs)' % n)
+    return dict(confirmed=False, detail='all %d (current, target) pairs satisfy '
+                'the clauses natively' % n)
